@@ -373,6 +373,10 @@ func (p *sparser) postfix() *SExpr {
 			p.p++
 			args := []*SExpr{}
 			for !p.isOp(")") {
+				if (name == "ifaceref" && len(args) == 1) || (name == "cell" && len(args) == 0) {
+					args = append(args, &SExpr{Op: "ident", Name: p.typeText()})
+					continue
+				}
 				args = append(args, p.expr())
 				if p.isOp(",") {
 					p.p++
@@ -438,6 +442,7 @@ type FuncSpec struct {
 	Props     []string
 	Requires  []*Clause
 	Ensures   []*Clause
+	MayPanic  []*Clause // the function may panic only in states satisfying one of these (evaluated on entry)
 	Modifies  []*SExpr
 	HasMod    bool
 	Loops     []*LoopSpec
@@ -546,7 +551,7 @@ func parseModifies(rest, where string) ([]*SExpr, error) {
 
 var specKeywords = map[string]bool{"func": true, "props": true, "requires": true, "ensures": true, "modifies": true,
 	"loop": true, "invariant": true, "decreases": true, "spec": true, "axiom": true, "lemma": true, "trusted": true,
-	"pure": true, "end": true, "allocates": true}
+	"pure": true, "end": true, "allocates": true, "maypanic": true}
 
 // parseSpecFile reads one verif_contracts.go file.
 func parseSpecFile(path, pkg string) (*SpecFile, error) {
@@ -627,6 +632,15 @@ func parseSpecFile(path, pkg string) (*SpecFile, error) {
 			if curF != nil {
 				curF.Allocates = true
 			}
+		case "maypanic":
+			if curF == nil {
+				return nil, fmt.Errorf("%s: maypanic outside func", l.where)
+			}
+			c, err := parseClause("maypanic", rest, l.where, curF.Props)
+			if err != nil {
+				return nil, err
+			}
+			curF.MayPanic = append(curF.MayPanic, c)
 		case "requires", "ensures":
 			var props []string
 			if curLemma != nil {
